@@ -100,7 +100,12 @@ class BayesianModelSampling(BayesianModelInference):
                 pbar.set_description(f"Generating for node: {node}")
             # If values specified in partial_samples, use them. Else generate the values.
             if (partial_samples is not None) and (node in partial_samples.columns):
-                sampled[node] = partial_samples.loc[:, node].values
+                # partial_samples hold state names; the working frame holds state numbers.
+                name_to_no = self.model.get_cpds(node).name_to_no[node]
+                sampled[node] = np.array(
+                    [name_to_no[state] for state in partial_samples[node].tolist()],
+                    dtype=int,
+                )
             else:
                 cpd = self.model.get_cpds(node)
                 states = range(self.cardinality[node])
